@@ -39,6 +39,36 @@ class _Sub(ast.NodeTransformer):
             return copy.deepcopy(self.env[n.id])
         return n
 
+    def visit_Call(self, n: ast.Call) -> ast.AST:
+        # beta-reduction: a call of a local that is bound to `lambda x, ..: E` (or a single-expression def) is E[x := argument]
+        f = n.func
+        if isinstance(f, ast.Name) and isinstance(self.env.get(f.id), ast.Lambda) and self.depth < 6:
+            lam = T.cast(ast.Lambda, self.env[f.id])
+            names = [a.arg for a in lam.args.posonlyargs + lam.args.args]
+            ok = not lam.args.vararg and not lam.args.kwarg and not lam.args.kwonlyargs and not any(isinstance(a, ast.Starred) for a in n.args) \
+                and all(k.arg in names for k in n.keywords) and len(n.args) <= len(names)
+            if ok:
+                bound: T.Dict[str, ast.AST] = {}
+                for nm, a in zip(names, n.args):
+                    bound[nm] = self.visit(copy.deepcopy(a))
+                for k in n.keywords:
+                    bound[T.cast(str, k.arg)] = self.visit(copy.deepcopy(k.value))
+                defaults = lam.args.defaults
+                for i, nm in enumerate(names):
+                    if nm not in bound:
+                        j = i - (len(names) - len(defaults))
+                        if j < 0:
+                            ok = False
+                            break
+                        bound[nm] = copy.deepcopy(defaults[j])
+                if ok:
+                    inner = _Sub(bound)
+                    inner.depth = self.depth + 1
+                    return inner.visit(copy.deepcopy(lam.body))
+        return self.generic_visit(n)
+
+    depth = 0
+
     def _shadow(self, node: ast.AST, targets: T.Iterable[ast.AST]) -> ast.AST:
         bound = set()
         for t in targets:
@@ -61,6 +91,41 @@ class _Sub(ast.NodeTransformer):
     visit_SetComp = visit_GeneratorExp = visit_DictComp = visit_ListComp  # type: ignore[assignment]
 
 
+class _Norm(ast.NodeTransformer):
+    """Spelling normal form of closed expressions:
+    `x.find(s) != -1 / >= 0 / > -1` -> `s in x`;  `x.find(s) == -1 / < 0` -> `s not in x`;  `len(x) == 0` -> `not x`;  `len(x) > 0 / != 0 / >= 1` -> `x`
+    (only where a truth value is asked for);  `.split(None)`, `.strip(None)`, `.lstrip(None)`, `.rstrip(None)` -> no argument."""
+
+    def visit_Call(self, n: ast.Call) -> ast.AST:
+        self.generic_visit(n)
+        if isinstance(n.func, ast.Attribute) and n.func.attr in ('split', 'strip', 'lstrip', 'rstrip') and len(n.args) == 1 and not n.keywords \
+                and isinstance(n.args[0], ast.Constant) and n.args[0].value is None:
+            n.args = []
+        return n
+
+    def visit_Compare(self, n: ast.Compare) -> ast.AST:
+        self.generic_visit(n)
+        if len(n.ops) != 1:
+            return n
+        l, op, r = n.left, n.ops[0], n.comparators[0]
+
+        def const(x: ast.AST) -> T.Optional[int]:
+            if isinstance(x, ast.Constant) and isinstance(x.value, int) and not isinstance(x.value, bool):
+                return x.value
+            if isinstance(x, ast.UnaryOp) and isinstance(x.op, ast.USub) and isinstance(x.operand, ast.Constant) and isinstance(x.operand.value, int):
+                return -x.operand.value
+            return None
+        c = const(r)
+        if c is None:
+            return n
+        if isinstance(l, ast.Call) and isinstance(l.func, ast.Attribute) and l.func.attr == 'find' and len(l.args) == 1 and not l.keywords:
+            found = (isinstance(op, ast.NotEq) and c == -1) or (isinstance(op, ast.GtE) and c == 0) or (isinstance(op, ast.Gt) and c == -1)
+            absent = (isinstance(op, ast.Eq) and c == -1) or (isinstance(op, ast.Lt) and c == 0)
+            if found or absent:
+                return ast.Compare(left=l.args[0], ops=[ast.In() if found else ast.NotIn()], comparators=[l.func.value])
+        return n
+
+
 def opaque(tag: str, *args: ast.AST) -> ast.AST:
     return ast.Call(func=ast.Name(id=f'__{tag}__', ctx=ast.Load()), args=list(args), keywords=[])
 
@@ -72,7 +137,7 @@ class PathEnv:
         self.env: T.Dict[str, ast.AST] = dict(base or {})
 
     def close(self, e: ast.AST) -> ast.AST:
-        return ast.fix_missing_locations(_Sub(self.env).visit(copy.deepcopy(e)))
+        return ast.fix_missing_locations(_Norm().visit(_Sub(self.env).visit(copy.deepcopy(e))))
 
     def bind(self, target: ast.AST, value: ast.AST) -> None:
         if isinstance(target, ast.Name):
@@ -109,17 +174,28 @@ class PathEnv:
             else:
                 self.bind(st.target, opaque('aug'))
         elif isinstance(st, (ast.FunctionDef, ast.AsyncFunctionDef)):
-            if isinstance(st, ast.FunctionDef) and len(st.body) == 1 and isinstance(st.body[0], ast.Return) and st.body[0].value is not None \
-                    and not st.decorator_list:
-                # `def f(x): return E` is the lambda `lambda x: E`
-                shadow = {a.arg for a in st.args.posonlyargs + st.args.args + st.args.kwonlyargs}
-                inner = PathEnv({k: v for k, v in self.env.items() if k not in shadow})
-                self.env[st.name] = ast.Lambda(args=st.args, body=inner.close(st.body[0].value))
+            lam = as_lambda(st, self.env) if isinstance(st, ast.FunctionDef) else None
+            if lam is not None:
+                self.env[st.name] = lam
             else:
                 self.env.pop(st.name, None)
         elif isinstance(st, (ast.Import, ast.ImportFrom)):
             for a in st.names:
                 self.env.pop(a.asname or a.name.split('.')[0], None)
+
+
+def as_lambda(st: ast.FunctionDef, outer: T.Optional[T.Dict[str, ast.AST]] = None) -> T.Optional[ast.Lambda]:
+    """`def f(x): a = E1; return E2` (straight-line assignments, one return, no decorator) as the lambda `lambda x: E2[a := E1]`."""
+    if st.decorator_list or not st.body or not isinstance(st.body[-1], ast.Return) or st.body[-1].value is None:
+        return None
+    body = [b for b in st.body[:-1] if not (isinstance(b, ast.Expr) and isinstance(b.value, ast.Constant))]   # docstring
+    if not all(isinstance(b, (ast.Assign, ast.AnnAssign)) for b in body):
+        return None
+    shadow = {a.arg for a in st.args.posonlyargs + st.args.args + st.args.kwonlyargs}
+    inner = PathEnv({k: v for k, v in (outer or {}).items() if k not in shadow})
+    for b in body:
+        inner.stmt(b)
+    return ast.Lambda(args=st.args, body=inner.close(st.body[-1].value))
 
 
 def _assigned(stmts: T.List[ast.stmt]) -> T.Set[str]:
@@ -337,6 +413,10 @@ def parts(e: ast.AST, scans: T.Mapping[str, T.Any] = {}, conv: T.Tuple[str, ...]
         return tuple(out)
     if isinstance(e, ast.BinOp) and isinstance(e.op, ast.Add) and not conv:
         return parts(e.left, scans) + parts(e.right, scans)
+    if isinstance(e, ast.BinOp) and isinstance(e.op, (ast.Mod, ast.Add)) and isinstance(e.left, ast.IfExp) and not conv:
+        # (A if c else B) % x  ==  (A % x) if c else (B % x)
+        return (Cond(e.left.test, parts(ast.BinOp(left=e.left.body, op=e.op, right=e.right), scans),
+                     parts(ast.BinOp(left=e.left.orelse, op=e.op, right=e.right), scans)),)
     if isinstance(e, ast.BinOp) and isinstance(e.op, ast.Mod) and isinstance(e.left, ast.Constant) and isinstance(e.left.value, str) and not conv:
         ops = list(e.right.elts) if isinstance(e.right, ast.Tuple) else [e.right]
         out = []
